@@ -47,3 +47,11 @@ func TestVerif_C08_Inmem(t *testing.T) {
 func TestVerif_C08_CacheInmem(t *testing.T) {
 	c08RunStack(t, "c08-cache-inmem", c08InmemStack(true), kit.N(2000, 100000), kit.N(400, 20000), nil)
 }
+
+// replay stubs for the C08 tests of the other packages (see c08ReplayStub)
+func TestVerif_C08_ViewBarrierInmem(t *testing.T) { c08ReplayStub(t, "c08-view-barrier-inmem") }
+func TestVerif_C08_ViewBarrierCacheInmem(t *testing.T) {
+	c08ReplayStub(t, "c08-view-barrier-cache-inmem")
+}
+func TestVerif_C08_Raft(t *testing.T)      { c08ReplayStub(t, "c08-raft") }
+func TestVerif_C08_CacheRaft(t *testing.T) { c08ReplayStub(t, "c08-cache-raft") }
